@@ -258,19 +258,39 @@ def simStep (H : Bytes → Str) (reps : Array SimRep) (line : JVal) : Array SimR
                 if res = S "ok" then
                   (((objGet (S "id") o).bind JVal.asStr?).bind BlockId.parse).bind (fun id => (fetchBlock H kv id).map (·.packs))
                 else none
-              let newPacks : List Str := match blockPacks with
-                | some ps => ps.filter (fun k => !d1.p.appliedPacks.contains k)
+              -- `DataStorage::pack` produces a pack iff the data stage is not empty; its bytes are determined by the
+              -- staged objects and their (hash-map) order; storage is write-once, so the pack may already exist -
+              -- even already APPLIED by this replica (an orphan staged body whose twin arrived in a foreign pack) -
+              -- and two stored packs may hold the same objects in different orders.  With a block: the pack it
+              -- names.  Without (block write failed): the pack that appeared; else a stored pack holding exactly the
+              -- staged objects, preferring the one the implementation reports as applied.
+              let implPacks : List Str := match objGet (S "packs") (obs.asObj?.getD []) with
+                | some (.arr l) => l.filterMap JVal.asStr?
+                | _ => []
+              let holdsStage := fun (k : Str) => match loadPackBytes H kv k with
+                | some l => sameSet (l.map (·.1)) stagedDigests
+                | none => false
+              let newPacks : List Str :=
+                if stagedDigests.isEmpty then []
+                else match blockPacks with
+                | some ps => ps
                 | none =>
                   if !writtenPacks.isEmpty then writtenPacks
-                  else if implStageEmpty && !stagedDigests.isEmpty then
-                    ((kv.list PACK_EXT).filter (fun k => !d1.p.appliedPacks.contains k &&
-                      (match loadPackBytes H kv k with | some l => sameSet (l.map (·.1)) stagedDigests | none => false))).take 1
+                  else if implStageEmpty then
+                    let cands := (kv.list PACK_EXT).filter holdsStage
+                    let pref := cands.filter (fun k => implPacks.contains k && !d1.p.appliedPacks.contains k)
+                    let pref2 := cands.filter (fun k => implPacks.contains k)
+                    ((if !pref.isEmpty then pref else if !pref2.isEmpty then pref2 else cands).take 1)
                   else []
               -- a pack produced by this call is indexed and empties the data stage, even if the block write fails
               let (d2, packObjs) : DState × List Str := newPacks.foldl (fun (acc : DState × List Str) k =>
                 match loadPackBytes H kv k with
-                | some l => ({ acc.1 with p := { acc.1.p with objects := acc.1.p.objects ++ l.map (·.1), appliedPacks := acc.1.p.appliedPacks ++ [k] }, stage := [] },
-                             acc.2 ++ l.map (·.1))
+                | some l =>
+                  let newObjs := (l.map (·.1)).filter (fun dg => !acc.1.p.objects.contains dg)
+                  ({ acc.1 with p := { acc.1.p with objects := acc.1.p.objects ++ newObjs,
+                                                     appliedPacks := if acc.1.p.appliedPacks.contains k then acc.1.p.appliedPacks else acc.1.p.appliedPacks ++ [k] },
+                                stage := [] },
+                   acc.2 ++ l.map (·.1))
                 | none => acc) (d1, [])
               let ePack := if newPacks.isEmpty then []
                            else if sameSet packObjs stagedDigests then [] else S "pack objects differ from the staged objects; "
